@@ -233,9 +233,23 @@ fn run_rep(args: &Args) {
                     }
                 };
                 let (nl, outs) = h.exec(&l);
+                // a sync that was interrupted may have reached the (private) server although nothing was
+                // committed locally; this family's model has no server, so the sync is completed before
+                // anything else happens (an undo could no longer take back what the server has)
+                let resync = nl.starts_with("F ") && (nl.contains(" before Y") || nl.contains(" mid Y"));
                 i.push(format!("> {}", nl));
                 o.push(nl);
                 i.extend(outs);
+                if resync {
+                    let (nl, outs) = h.exec("Q");
+                    i.push("> Q".to_string());
+                    o.push(nl);
+                    i.extend(outs);
+                    let (nl, outs) = h.exec("Y");
+                    i.push(format!("> {}", nl));
+                    o.push(nl);
+                    i.extend(outs);
+                }
                 // every action is followed by a dump
                 if l != "Q" && l != "G" {
                     let (nl, outs) = h.exec("Q");
